@@ -372,7 +372,12 @@ def run_query(traj, q):
 
 def describe(q):
     d = {k: v for k, v in q.items() if k in ("q", "mj", "why", "pol", "form", "qv", "qunit", "where", "forms", "s", "k", "c", "merged")}
+    if q["q"] == "traj" and len(q["args"]) == 3:
+        d["merge_flag"] = repr(q["args"][2])      # False | 0 | np.False_ | True | 1 | np.True_
     return d
+
+
+MERGE_FLAGS = {"False": False, "0": 0, "np.False_": np.False_, "True": True, "1": 1, "np.True_": np.True_}
 
 
 def check_trajectory(ctx, c, qs, ans):
@@ -720,7 +725,8 @@ def replay(ctx, rec):
     elif mj["q"] == "state":
         st, res = call(lambda: traj.get_state(sp(mj["sp"]), mj["k"]))
     else:
-        st, res = call(lambda: traj.get_trajectory(sp(mj["sp"]), pos(mj["pos"]), merge=mj["merge"]))
+        flag = MERGE_FLAGS.get(q.get("merge_flag"), mj["merge"])
+        st, res = call(lambda: traj.get_trajectory(sp(mj["sp"]), pos(mj["pos"]), merge=flag))
     exp = rec.get("expected")
     if st == "error":
         out.update(impl="raises " + str(res), expected=exp)
